@@ -70,6 +70,91 @@ def make_loop(lk, ck, bk, bound):
     return [("set", lv, 0), loop, nm.say("end")]
 
 
+# ---- strengthening round 2: rich conditions in every loop-condition position ------------------------------
+
+RICH_TEMPLATES = ["guard_and", "and_guard", "distributed", "guard_or", "demorgan"]
+RICH_BODIES = ["say", "clear_first", "chain_same_vars"]
+
+
+def rich_loop(lk, kind, tmpl, bound, bk, spell=0):
+    """a bounded loop whose condition is the rich formula `kind` (G.RICH) combined with the counter test
+    `$L < bound` by template tmpl; None when the template does not apply"""
+    nm = G.Names()
+    lv = nm.loopvar()
+    V = ["$a", "$b", "$c", "$d"]
+    f = G.rich(kind, V, spell)
+    g = G.A(lv, "<", bound)
+    extra = []
+    if tmpl == "guard_and":            # $L < N && F
+        cf = G.AND(g, f)
+    elif tmpl == "and_guard":          # F && $L < N
+        cf = G.AND(f, g)
+    elif tmpl == "distributed":        # the guard inside every alternative of a top-level ||
+        if f[0] != "|":
+            return None
+        cf = G.OR(*[G.AND(g, x) if i % 2 == 0 else G.AND(x, g) for i, x in enumerate(f[1])])
+    elif tmpl == "guard_or":           # $L < N || F : F is an ALTERNATIVE after the guard; the body makes F false
+        extra = G.falsifier(f)
+        if extra is None:
+            return None
+        cf = G.OR(g, f) if f[0] != "|" else G.OR(g, *f[1])
+        if spell % 2:
+            cf = G.OR(g, f)             # nested: a || (x || y)
+    elif tmpl == "demorgan":           # !($L >= N || !F)
+        cf = G.NOT(G.OR(G.A(lv, ">=", bound), G.NOT(f)))
+    else:
+        raise ValueError(tmpl)
+    cond = [("f", cf)]
+    if bk == "say":
+        body = [nm.say("b")]
+    elif bk == "clear_first":          # the body changes a tested variable: the re-test must see the new value
+        body = [nm.say("b"), ("set", V[spell % 4], 0)]
+    else:                              # a chain in the body testing the same variables with other rich shapes
+        k2 = G.RICH_KINDS[(G.RICH_KINDS.index(kind) + 3) % len(G.RICH_KINDS)]
+        body = [("if", [([("f", G.rich(k2, V[1:] + V[:1], spell + 1))], [nm.say("t")]),
+                        ([("f", G.rich(kind, V, spell + 2))], [nm.say("u"), nm.say("u")])], None)]
+    body = body + extra
+    inc = ("add", lv, 1)
+    if lk == "for":
+        return [("for", [("set", lv, 0)], cond, [inc], body), nm.say("end")]
+    body = body + [inc] if spell % 2 else [inc] + body
+    loop = ("while", cond, body) if lk == "while" else ("dowhile", body, cond)
+    return [("set", lv, 0), loop, nm.say("end")]
+
+
+def rich_loop_items(rng, quick):
+    items = []
+    n = 0
+    for ki, kind in enumerate(G.RICH_KINDS):
+        for li, lk in enumerate(LOOP_KINDS):
+            for ti, tmpl in enumerate(RICH_TEMPLATES):
+                # bound 3 always; bounds 0 and 1 rotate (every kind x template sees both, every loop kind some)
+                bounds = [3, (0, 1)[(ki + li + ti) % 2]] if quick else [0, 1, 3]
+                for bound in bounds:
+                    bk = RICH_BODIES[(ki + li + ti + bound) % 3] if quick else None
+                    for b in ([bk] if bk else RICH_BODIES):
+                        p = rich_loop(lk, kind, tmpl, bound, b, spell=ki + ti + n)
+                        n += 1
+                        if p is not None:
+                            items.append(dict(prog=p, cert=n % 2, stream="rich-loop-" + tmpl))
+    # random formulas as loop conditions, nested loops both with rich conditions
+    for i in range(40 if quick else 400):
+        nm = G.Names()
+        inner = G.random_loop(rng, nm, 1, ["$a", "$b", "$c"], cond_kind="rich")
+        outer = G.random_loop(rng, nm, 1, ["$a", "$b", "$c"], cond_kind="rich")
+        if outer[0] == "seq":
+            pre, lp = outer[1]
+            if lp[0] == "while":
+                lp = ("while", lp[1], [inner] + lp[2])
+            else:
+                lp = ("dowhile", [inner] + lp[1], lp[2])
+            prog = [pre, lp]
+        else:
+            prog = [("for", outer[1], outer[2], outer[3], [inner] + outer[4])]
+        items.append(dict(prog=G.flatten_seq(prog + [nm.say("end")]), cert=i % 2, stream="rich-loop-random-nested"))
+    return items
+
+
 def gen_items(rng, tier):
     items = []
     quick = tier == "quick"
@@ -114,6 +199,7 @@ def gen_items(rng, tier):
     c = [("atom", ("$a", "==", 5))]
     for p in ([("while", c, [])], [("dowhile", [], c)], [("for", [("set", "$i", 0)], c, [("add", "$i", 1)], [])]):
         items.append(dict(prog=p + [("say", "after")], cert=0, stream="empty-bodies"))
+    items += rich_loop_items(rng, quick)
     return items
 
 
